@@ -16,13 +16,14 @@ CHECKS["C01"] = dict(
     rule="rapid-generated histories (<=60 ops) of subscribe/unsubscribe/lookup on message.Trie in emitter and mqtt mode, "
          "filters over {a,b,c,+}, depth 1-4, optional trailing # (mqtt) and $share/g1|g2/ prefix, 2 contracts, 5 subscribers; "
          "non-trivial = history with a lookup whose expected direct set is non-empty, after >=1 effective unsubscribe, while >=2 "
-         "overlapping filters of one contract are live; distinct = distinct case value (hash of its canonical JSON). "
+         "overlapping filters of one contract are live (counters leg: >=2 live ssids sharing the XOR hash code); distinct = distinct case value (hash of its canonical JSON). "
          "Concurrent rounds count as one case each.",
     assumptions=["subscriber ids colliding under 32-bit murmur and contract ids equal to wildcard hash constants are outside the sampled domain",
                  "concurrent leg: interleavings are whatever the Go scheduler yields (sampled, not enumerated)"],
     legs=[
         dict(name="trie-emitter", test="^TestTrieEmitter$", quick=dict(n=3000, procs=2, timeout=240), thorough=dict(n=300000, procs=6, timeout=1500)),
         dict(name="trie-mqtt", test="^TestTrieMQTT$", quick=dict(n=3000, procs=2, timeout=240), thorough=dict(n=300000, procs=6, timeout=1500)),
+        dict(name="counters", test="^TestCounters$", quick=dict(n=5000, procs=1, timeout=240), thorough=dict(n=500000, procs=2, timeout=1500)),
         dict(name="concurrent", test="^(TestConcurrent|TestShareBothMembers)$", kind="plain", quick=dict(n=20, procs=1, timeout=240), thorough=dict(n=800, procs=2, timeout=1500)),
     ],
 )
@@ -131,6 +132,23 @@ CHECKS["C17"] = dict(
           dict(name="writes", test="^TestWrites$", quick=dict(n=1500, procs=4, timeout=400), thorough=dict(n=60000, procs=14, timeout=2400)),
           dict(name="websocket", test="^TestWebsocket$", quick=dict(n=4000, procs=2, timeout=300), thorough=dict(n=400000, procs=6, timeout=2400)),
           dict(name="websocket-real", test="^TestRealWebsocket$", quick=dict(n=300, procs=2, timeout=300), thorough=dict(n=20000, procs=6, timeout=2400))],
+)
+
+CHECKS["C06"] = dict(
+    level="exploration",
+    technique="model-based property testing (rapid) of the in-memory and disk message stores: generated stores and queries against a sorted reference list "
+              "(contract, level-wise prefix filter, window, expiry, limit, 64 KiB reply cap, continuation pages to exhaustion)",
+    level_text="Stores of 0-40 messages (two contracts whose key prefixes collide by construction plus a third, channels of depth 1-4, a 6-second band so many "
+               "messages share a second, expired and live TTLs, payloads up to 60 KiB against the 64 KiB cap, retained TTL) and 1-6 queries each (literal first "
+               "level, '+' elsewhere, windows cutting the band, limits 0..2^62, continuation from the oldest id to exhaustion or from an arbitrary returned id): "
+               "the returned multiset, its order, the fields of every message, page disjointness and the union of pages are compared with the reference.",
+    level_note="Trusted: the 40-line reference (key order = time desc then creation order desc, cumulative payload+id+channel <= 65536), message.New/ID.SetTime for "
+               "construction, wall clock only with margins (messages are either expired by >=500 s or live for >=1 h). Cluster survey disabled (nil surveyor). "
+               "Negative limits are out of the property's domain (C09 covers them).",
+    rule="rapid-generated (store, queries) cases; non-trivial = some query has a non-empty candidate set that is a strict subset of the store and (a colliding foreign "
+         "contract message, an expired message, or a continuation) is involved; distinct = distinct case value.",
+    legs=[dict(name="inmemory", test="^TestQueryInMemory$", quick=dict(n=4000, procs=4, timeout=300), thorough=dict(n=120000, procs=10, timeout=2400)),
+          dict(name="disk", test="^TestQueryDisk$", quick=dict(n=1000, procs=2, timeout=300), thorough=dict(n=30000, procs=6, timeout=2400))],
 )
 
 for _k in CHECKS:
